@@ -390,9 +390,10 @@ def expand_member_helpers(facts, fn, depth=3, _stack=()):
             return None
         g = cands[0]
         rets = [x for x in walk(body(g), into_lambdas=False) if x.get("k") == "ReturnStmt"]
-        top = kids(body(g))
-        if any(not (top and r is top[-1] and not kids(r)) for r in rets):
-            return None     # the helper returns a value or leaves early: not a plain block of statements
+        if any(kids(r) for r in rets):
+            return None     # the helper returns a value: not a plain block of statements
+        # `return;` inside the helper (guards such as "nothing to build") stays a return after splicing: the rules treat it as an
+        # exit of the construction, which is what it is for the caller as long as nothing the rules look at follows the call
         return g
 
     def rec(n):
